@@ -159,6 +159,7 @@ func init() {
 			{"style-id", "emitted style ids ⊆ registry (constant-set inclusion with loop/range expansion)", func(r *Run) { ruleStyleID(r, "") }},
 			{"part-dep", "regenerated parts depend on registry / replaced part", rulePartDep},
 			{"must-update", "registrations on every path", ruleMustUpdate},
+			{"part-from-registry", "regenerated styles/numbering parts contain every registry entry (unfiltered range loop)", rulePartFromRegistry("stylesXML", "Numbering")},
 		},
 		Assumptions: append([]string{"unbounded integer parts of a style-id pattern are expanded over heading/TOC levels 1..9"}, commonAssumptions...),
 	}
@@ -184,6 +185,7 @@ func init() {
 				ruleGlobalState(r, map[string]bool{"globalFootnoteManager": true, "globalNumberingManager": true})
 			}},
 			{"must-update", "registrations on every path", ruleMustUpdate},
+			{"part-from-registry", "regenerated notes/numbering parts contain every registry entry (unfiltered range loop over the registry map)", rulePartFromRegistry("Footnotes", "Endnotes", "Numbering")},
 		},
 		Assumptions: commonAssumptions,
 	}
